@@ -190,6 +190,12 @@ def run(run: core.Run, tier: str):
   run.evaluations += len(brute_lines)
 
 
+  # ---- histories on ONE impl object: convert A, then B, ... (Props.C16 C16_reconvert_*) -----------------
+  reconvert(run, qf, mf, rng, tier)
+
+  # ---- argument forms: the same configuration written with numpy / tensor scalars ------------------------
+  argument_forms(run, qf, mf)
+
   # ---- floating-point cells: the clause C16_float judged on the REAL output type ------------------------
   # (the brute-force oracle above has no value set for a float type and skips every pair with one)
   float_cells(run, qf, mf)
@@ -316,3 +322,228 @@ def float_cells(run, qf, mf):
       if bool(mdl) != in_float(v, bits):
         run.disagree("float_value_set", {"bits": bits, "value": str(v)}, in_float(v, bits), bool(mdl))
     run.count("float_value_set_probes_fp%d" % bits, len(vs))
+
+
+def history_configs():
+  """per qkeras class: (label, constructor) configurations aimed at the fields a conversion writes or
+  forgets: bits / integer / sign, the 1-bit 0/1 mode of quantized_relu, use_01, po2 caps (None, 0 = falsy,
+  below / at / above 1, non powers of two)"""
+  from qkeras import quantizers as Q
+  cfg = {}
+  cfg["quantized_bits"] = [("quantized_bits(%d,%d,keep_negative=%d)" % a, (lambda a=a: Q.quantized_bits(a[0], a[1], keep_negative=a[2])))
+                           for a in [(4, 0, 1), (4, 0, 0), (2, 1, 1), (1, 0, 1), (3, 3, 0), (5, -1, 1), (3, 0, 1), (2, 0, 0)]]
+  cfg["quantized_relu"] = [("quantized_relu(%d,%d,negative_slope=%s)" % a, (lambda a=a: Q.quantized_relu(a[0], a[1], negative_slope=a[2])))
+                           for a in [(4, 1, 0.0), (4, 1, 0.25), (3, 0, 0.0), (3, 0, 0.25), (1, 1, 0.0), (1, 0, 0.0), (2, 2, 0.0),
+                                     (2, 1, 0.125)]]
+  cfg["quantized_tanh"] = [("quantized_tanh(%d)" % b, (lambda b=b: Q.quantized_tanh(b))) for b in (2, 3, 5)]
+  cfg["quantized_ulaw"] = [("quantized_ulaw(%d,%d)" % a, (lambda a=a: Q.quantized_ulaw(a[0], a[1]))) for a in [(4, 1), (3, 0), (5, 2)]]
+  cfg["binary"] = [("binary(use_01=%d)" % u, (lambda u=u: Q.binary(use_01=bool(u)))) for u in (0, 1)]
+  cfg["stochastic_binary"] = [("stochastic_binary()", Q.stochastic_binary)]
+  cfg["bernoulli"] = [("bernoulli()", Q.bernoulli)]
+  cfg["ternary"] = [("ternary()", Q.ternary)]
+  cfg["stochastic_ternary"] = [("stochastic_ternary()", Q.stochastic_ternary)]
+  mvs = [None, 0, 0.25, 1, 2, 16, 3, 0.75]
+  for cls in ("quantized_po2", "quantized_relu_po2"):
+    cfg[cls] = [("%s(%d,%s)" % (cls, b, mv), (lambda cls=cls, b=b, mv=mv: getattr(Q, cls)(b, mv)))
+                for b in (3, 4, 6) for mv in mvs]
+  return cfg
+
+
+def history_kind(cls, earlier, qb):
+  """which forgotten-field situation a history aims at: what ANY earlier conversion on the object set
+  versus what the last quantizer needs"""
+  if "po2" in cls:
+    ca, cb = any(bool(q.max_value) for q in earlier), bool(qb.max_value)
+    return {(True, False): "capped_then_uncapped", (False, True): "uncapped_then_capped",
+            (True, True): "capped_then_capped", (False, False): "uncapped_then_uncapped"}[(ca, cb)]
+  if cls == "quantized_relu":
+    sa, sb = any(q.negative_slope != 0 for q in earlier), qb.negative_slope != 0
+    return {(True, False): "signed_then_unsigned", (False, True): "unsigned_then_signed",
+            (True, True): "signed_then_signed", (False, False): "unsigned_then_unsigned"}[(sa, sb)]
+  qa = earlier[-1]
+  if cls == "quantized_bits":
+    return "sign_change" if bool(qa.keep_negative) != bool(qb.keep_negative) else "same_sign"
+  if cls == "binary":
+    return "use_01_change" if bool(qa.use_01) != bool(qb.use_01) else "same_use_01"
+  return "same_class"
+
+
+def reconvert(run, qf, mf, rng, tier):
+  """One impl object of every class the factory knows, converted from a SEQUENCE of quantizers of its
+  class (all ordered pairs of the configurations, plus seeded triples): after every step the record must
+  be the record of a fresh conversion of that step's quantizer (clause reconvert_equals_fresh), and
+  multipliers built from the reused object must hold every product of the values the LAST quantizer's
+  type really has (clause product, brute force with the fresh record as the value set)."""
+  from qkeras import quantizers as Q
+  cfgs = history_configs()
+  hist = []
+  for cls, cs in cfgs.items():
+    n = len(cs)
+    pairs = [(i, j) for i in range(n) for j in range(n)]
+    if len(pairs) > 160:
+      # all same-width pairs (the cap / sign cases), a seeded sample of the rest
+      same = [(i, j) for i, j in pairs if cs[i][0].split(",")[0] == cs[j][0].split(",")[0]]
+      rest = [pq for pq in pairs if pq not in set(same)]
+      pick = rng.choice(len(rest), size=min(60, len(rest)), replace=False)
+      pairs = same + [rest[int(k)] for k in sorted(pick.tolist())]
+    for i, j in pairs:
+      hist.append((cls, [i, j]))
+    for _ in range(min(12, n * n)):
+      hist.append((cls, [int(rng.integers(0, n)) for _ in range(int(rng.integers(3, 6)))]))
+  partners = [("quantized_bits(3,0,keep_negative=1)", Q.quantized_bits(3, 0, keep_negative=1)),
+              ("ternary()", Q.ternary()), ("quantized_po2(3,None)", Q.quantized_po2(3, None)),
+              ("binary(use_01=1)", Q.binary(use_01=True))]
+  partner_impl = [(l, qf.make_quantizer(q)) for l, q in partners]
+  lines, metas = [], []
+  for cls, ixs in hist:
+    qs = [cfgs[cls][i][1]() for i in ixs]
+    labels = [cfgs[cls][i][0] for i in ixs]
+    impl_cls = qf.quantizer_lookup[type(qs[0])]
+    obj = impl_cls()
+    states = []
+    for q in qs:
+      obj.convert_qkeras_quantizer(q)
+      states.append(qtypes.to_rec(obj))
+    fresh = [qtypes.to_rec(qf.make_quantizer(q)) for q in qs]
+    lines.append({"op": "reconvert", "cls": cls, "history": [conv_case(l, q) for l, q in zip(labels, qs)]})
+    metas.append((cls, labels, qs, obj, states, fresh))
+  outs = core.run_driver("C16", lines)
+  brute_lines, brute_meta = [], []
+  for (cls, labels, qs, obj, states, fresh), line, o in zip(metas, lines, outs):
+    kind = history_kind(cls, qs[:-1], qs[-1])
+    run.case(("reconvert", cls, tuple(labels)))
+    run.compared += 1
+    run.count("reconvert_%s_%s" % (cls, kind))
+    mirrored = True
+    for k, (st, mo) in enumerate(zip(states, o["states"])):
+      if mo is None or qtypes.rec_eq(st, mo):
+        mirrored = False
+        run.disagree("reconvert", {"cls": cls, "history": labels, "step": k}, st, mo)
+        break
+    # the fresh conversion itself (second tie of `ofQuantizer`, through the factory route)
+    for k, (fr, mo) in enumerate(zip(fresh, o["fresh"])):
+      if mo is None or qtypes.rec_eq(fr, mo):
+        mirrored = False
+        run.disagree("convert", {"cls": cls, "history": labels, "step": k}, fr, mo)
+        break
+    # clause: the k-th use of the object behaves like a fresh object
+    for k in range(1, len(states)):
+      d = qtypes.rec_eq(states[k], fresh[k])
+      if d:
+        kk = history_kind(cls, qs[:k], qs[k])
+        run.violate("reconvert_equals_fresh", {"cls": cls, "history": kk, "fields": sorted(d)},
+                    {"class": type(obj).__name__, "history": labels[: k + 1], "step": k,
+                     "record_on_reused_object": states[k], "record_on_fresh_object": fresh[k],
+                     "replay": "o = quantizer_impl.%s(); [o.convert_qkeras_quantizer(q) for q in history]; vars(o)"
+                               % type(obj).__name__},
+                    mirrored=mirrored)
+        break
+    # value level: multipliers built from the reused object vs the values the last quantizer really has
+    if small(fresh[-1]):
+      for pl, pi in partner_impl:
+        for pos in ("w", "x"):
+          m = mf.make_multiplier(obj, pi) if pos == "w" else mf.make_multiplier(pi, obj)
+          ro = qtypes.to_rec(m.output)
+          if ro["mode"] == 5:
+            continue
+          pr = qtypes.to_rec(pi)
+          w_rec, x_rec = (fresh[-1], pr) if pos == "w" else (pr, fresh[-1])
+          # what the model says for the STATE of the reused object
+          brute_lines.append({"op": "brute", "w": w_rec, "x": x_rec, "out": ro})
+          brute_meta.append((cls, kind, labels, pl, pos, m.implemented_as(), ro, states[-1], pr, mirrored))
+  mul_lines = [{"op": "mul", "w": (st if pos == "w" else pr), "x": (pr if pos == "w" else st)}
+               for (_, _, _, _, pos, _, _, st, pr, _) in brute_meta]
+  mul_outs = core.run_driver("C16", mul_lines)
+  outs = core.run_driver("C16", brute_lines)
+  n_pairs = 0
+  for (cls, kind, labels, pl, pos, impl, ro, st, pr, mirrored), o, mo in zip(brute_meta, outs, mul_outs):
+    n_pairs += o["pairs"]
+    run.compared += 1
+    if "err" in mo or qtypes.rec_eq(ro, mo["out"]) or mo["impl"] != impl:
+      mirrored = False
+      run.disagree("make_multiplier", {"reused_object": labels, "partner": pl, "position": pos},
+                   {"impl": impl, "out": ro}, mo)
+    if o["bad"] is not None:
+      a, b = core.unrj(o["bad"][0]), core.unrj(o["bad"][1])
+      zero = (a * b == 0)
+      key = {"impl": impl, "out_mode": ro["mode"], "zero_product": zero, "history_cls": cls, "history": kind,
+             "reused_position": pos}
+      run.violate("zero" if zero else "product", key,
+                  {"history_on_one_object": labels, "partner": pl, "out": ro, "a": str(a), "b": str(b),
+                   "product": str(a * b), "record_on_reused_object": st,
+                   "replay": "o = impl(); [o.convert_qkeras_quantizer(q) for q in history]; "
+                             "MultiplierFactory().make_multiplier(o, partner).output  (reused object as %s)" % pos},
+                  mirrored=mirrored)
+  run.extra["reconvert"] = {"histories": len(hist), "brute_force_type_pairs": len(brute_lines),
+                            "brute_force_value_pairs": n_pairs}
+  run.evaluations += len(brute_lines)
+
+
+def argument_forms(run, qf, mf):
+  """same value, different Python type (int / np.int32 / np.int64 / np.float32 / np.float64 / 0-d array /
+  tf.constant / np.bool_ / keyword vs positional): the qtools record and the multiplier built from it
+  must be those of the plain-number twin (clause argument_form); every form also goes to the model."""
+  import tensorflow as tf
+  from qkeras import quantizers as Q
+  groups = [
+      ("quantized_po2(4,2)", [
+          ("int", lambda: Q.quantized_po2(4, 2)), ("float", lambda: Q.quantized_po2(4, 2.0)),
+          ("np.float32", lambda: Q.quantized_po2(np.int64(4), np.float32(2))),
+          ("np.float64", lambda: Q.quantized_po2(np.int32(4), np.float64(2))),
+          ("np.int64", lambda: Q.quantized_po2(4, np.int64(2))),
+          ("0-d array", lambda: Q.quantized_po2(4, np.array(2.0))),
+          ("tf.constant", lambda: Q.quantized_po2(4, tf.constant(2.0))),
+          ("keywords", lambda: Q.quantized_po2(max_value=2.0, bits=4))]),
+      ("quantized_relu_po2(5,0) (falsy cap)", [
+          ("int", lambda: Q.quantized_relu_po2(5, 0)), ("None", lambda: Q.quantized_relu_po2(5, None)),
+          ("np.float32", lambda: Q.quantized_relu_po2(5, np.float32(0))),
+          ("np.int64", lambda: Q.quantized_relu_po2(np.int64(5), np.int64(0))),
+          ("float", lambda: Q.quantized_relu_po2(5, 0.0))]),
+      ("quantized_relu_po2(4,0.25)", [
+          ("float", lambda: Q.quantized_relu_po2(4, 0.25)), ("np.float32", lambda: Q.quantized_relu_po2(4, np.float32(0.25))),
+          ("np.float64", lambda: Q.quantized_relu_po2(4, np.float64(0.25))),
+          ("tf.constant", lambda: Q.quantized_relu_po2(4, tf.constant(0.25)))]),
+      ("quantized_bits(4,1,keep_negative=0)", [
+          ("int", lambda: Q.quantized_bits(4, 1, keep_negative=0)), ("bool", lambda: Q.quantized_bits(4, 1, keep_negative=False)),
+          ("numpy", lambda: Q.quantized_bits(np.int64(4), np.int32(1), keep_negative=np.bool_(False))),
+          ("tf integer", lambda: Q.quantized_bits(4, tf.constant(1), keep_negative=False)),
+          ("keywords", lambda: Q.quantized_bits(integer=1, bits=4, keep_negative=False))]),
+      ("quantized_relu(4,1)", [
+          ("int", lambda: Q.quantized_relu(4, 1)), ("numpy", lambda: Q.quantized_relu(np.int64(4), np.int64(1), negative_slope=np.float32(0.0))),
+          ("slope int 0", lambda: Q.quantized_relu(4, 1, negative_slope=0))]),
+      ("quantized_relu(4,1,negative_slope=0.25)", [
+          ("float", lambda: Q.quantized_relu(4, 1, negative_slope=0.25)),
+          ("np.float64", lambda: Q.quantized_relu(4, 1, negative_slope=np.float64(0.25))),
+          ("np.float32", lambda: Q.quantized_relu(np.int32(4), 1, negative_slope=np.float32(0.25)))]),
+      ("quantized_relu(1,1) (0/1 mode)", [
+          ("int", lambda: Q.quantized_relu(1, 1)), ("numpy", lambda: Q.quantized_relu(np.int64(1), np.int64(1)))]),
+      ("binary(use_01=1)", [
+          ("bool", lambda: Q.binary(use_01=True)), ("int", lambda: Q.binary(use_01=1)),
+          ("np.bool_", lambda: Q.binary(use_01=np.bool_(True)))]),
+  ]
+  partner = qf.make_quantizer(Q.quantized_bits(3, 0, keep_negative=1))
+  lines, metas = [], []
+  for glabel, forms in groups:
+    ref = None
+    for flabel, ctor in forms:
+      q = ctor()
+      impl = qf.make_quantizer(q)
+      rec = qtypes.to_rec(impl)
+      outs_ = [qtypes.to_rec(mf.make_multiplier(impl, partner).output),
+               qtypes.to_rec(mf.make_multiplier(partner, impl).output)]
+      if ref is None:
+        ref = (flabel, rec, outs_)
+      run.case(("argument_form", glabel, flabel))
+      run.compared += 1
+      run.count("argument_form_" + flabel.replace(" ", "_"))
+      lines.append(conv_case(glabel, q))
+      metas.append((glabel, flabel, rec))
+      if qtypes.rec_eq(rec, ref[1]) or any(qtypes.rec_eq(a, b) for a, b in zip(outs_, ref[2])):
+        run.violate("argument_form", {"config": glabel, "form": flabel},
+                    {"configuration": glabel, "form": flabel, "record": rec, "reference_form": ref[0],
+                     "reference_record": ref[1], "multiplier_outputs": outs_, "reference_multiplier_outputs": ref[2],
+                     "replay": "QuantizerFactory().make_quantizer(<%s written with %s arguments>)" % (glabel, flabel)},
+                    mirrored=False)
+  for (glabel, flabel, rec), line, o in zip(metas, lines, core.run_driver("C16", lines)):
+    if "err" in o or qtypes.rec_eq(rec, o["out"]):
+      run.disagree("convert", {"quantizer": glabel, "form": flabel, "line": line}, rec, o)
